@@ -54,7 +54,11 @@ static void draw(u8* d, u64* idx, const u64* e){ for (int i = 0; i < CELLS; i++)
 void h_max_pool2d(void){
   u64 e[4] = {N, C, pool_out(H, KH, SH, CEIL), pool_out(W, KW, SW, CEIL)}, idx[4], os[4] = {0}; u8 d[CELLS], out = 0;
   draw(d, idx, e);
+#ifdef VIA_FN   /* through the extracted function composition (what the device kernels evaluate) */
+  int r = k_max_pool2d_fn(sh, d, ks, st, CEIL, idx, os, &out);
+#else
   int r = k_max_pool2d(sh, d, ks, st, CEIL, idx, os, &out);
+#endif
   ASSERT(r == 1, "ok");
   for (int i = 0; i < 4; i++) ASSERT(os[i] == e[i], "shape == PyTorch output shape");
   u8 m = 0; int any = 0;
@@ -67,7 +71,11 @@ void h_max_pool2d(void){
 void h_avg_pool2d(void){
   u64 e[4] = {N, C, pool_out(H, KH, SH, CEIL), pool_out(W, KW, SW, CEIL)}, idx[4], os[4] = {0}; u8 d[CELLS]; float out = 0;
   draw(d, idx, e);
+#ifdef VIA_FN
+  int r = k_avg_pool2d_fn(sh, d, ks, st, CEIL, idx, os, &out);
+#else
   int r = k_avg_pool2d(sh, d, ks, st, CEIL, idx, os, &out);
+#endif
   ASSERT(r == 1, "ok");
   for (int i = 0; i < 4; i++) ASSERT(os[i] == e[i], "shape == PyTorch output shape");
   float acc = 0.0f; u32 cnt = 0;   /* the nested-loop definition in float32, row-major over the window truncated at the border */
